@@ -130,7 +130,7 @@ class C14(PropBase):
 
     def run(self, case):
         op, g = case["op"], case["g"]
-        gr = GG.to_y0(g)
+        gr = GG.to_y0(g, loose=True)
         before = GG.snapshot(gr)
         out = apply_op(op, gr, case)
         violation = None
@@ -139,7 +139,7 @@ class C14(PropBase):
         rng = random.Random(str(case))
         h = reorder(g, rng)
         case2 = dict(case, g=h, S=list(reversed(case.get("S", []))))
-        out2 = apply_op(op, GG.to_y0(h), case2)
+        out2 = apply_op(op, GG.to_y0(h, loose=True), case2)
         if canon(op, out) != canon(op, out2) and violation is None:
             violation = f"{op} result depends on insertion order: {out} vs {out2}"
         nontrivial = bool(g["dir"] or g["bid"]) and out is not None and canon(op, out) != canon(op, g) \
